@@ -249,38 +249,7 @@ func C07(p *Prog, r *Run) {
 	r.Fn(FuncName(comp), FuncName(lin), FuncName(fast))
 
 	r.Rule("C07.1", "dispatch: compatibility calls the linear walk exactly for the `linear` method constant and the fast walk otherwise", func() {
-		tm := NewTermer(comp)
-		cl := p.Const(PkgT, "GenomeCompatibilityMethodLinear")
-		_ = p.Const(PkgT, "GenomeCompatibilityMethodFast")
-		ll, ff := CallsTo(comp, lin), CallsTo(comp, fast)
-		if len(ll) != 1 || len(ff) != 1 {
-			r.Bad("compatibility.calls", p.Pos(comp.Pos()), fmt.Sprintf("compatibility calls compatLinear %d times and compatFast %d times, expected one each", len(ll), len(ff)))
-			return
-		}
-		side := func(c ssa.CallInstruction) (isLinear, ok bool) {
-			for _, g := range Guards(c.Block()) {
-				t := tm.Of(g.Cond)
-				if t.Op == "bin" && (t.Name == "==" || t.Name == "!=") && strings.Contains(t.String(), ".GenCompatMethod") && strings.Contains(t.String(), cl.Val().ExactString()) {
-					return (t.Name == "==") == g.True, true
-				}
-			}
-			return false, false
-		}
-		l, ok1 := side(ll[0])
-		f, ok2 := side(ff[0])
-		r.Check(ok1 && l, "compatibility.linear", p.Pos(ll[0].Pos()), "compatLinear is reached exactly under GenCompatMethod == linear", "compatLinear is not selected by GenCompatMethod == "+cl.Val().ExactString())
-		r.Check(ok2 && !f, "compatibility.fast", p.Pos(ff[0].Pos()), "compatFast is reached otherwise", "compatFast is not the alternative of the linear method")
-		for _, c := range []ssa.CallInstruction{ll[0], ff[0]} {
-			a := callArgTerms(tm, c.Common())
-			okA := a[0].Op == "recv" && isParamIdx(a[1], 1) && isParamIdx(a[2], 2)
-			retOK := false
-			for _, b := range comp.Blocks {
-				if ret, ok := b.Instrs[len(b.Instrs)-1].(*ssa.Return); ok && ret.Results[0] == c.Value() {
-					retOK = true
-				}
-			}
-			r.Check(okA && retOK, "compatibility.passes:"+c.Common().StaticCallee().Name(), p.Pos(c.Pos()), "same genomes and options passed on, result returned", "the walk is not called with (g, og, opts) or its result is not what compatibility returns")
-		}
+		r.c07Dispatch()
 	})
 
 	r.Rule("C07.2", "guarded division: a float division by a counter that starts at 0 is dominated by a positivity test of that counter", func() {
@@ -791,4 +760,74 @@ func firstPos(ip *IterPath) token.Pos {
 		}
 	}
 	return token.NoPos
+}
+
+// c07Dispatch implements C07.1 (shared with C08: the distance speciate compares with the threshold is this function).
+func (r *Run) c07Dispatch() {
+	p := r.P
+	comp := p.Func(PkgG, "Genome.compatibility")
+	lin := p.Func(PkgG, "Genome.compatLinear")
+	fast := p.Func(PkgG, "Genome.compatFast")
+	r.Fn(FuncName(comp))
+	tm := NewTermer(comp)
+	cl := p.Const(PkgT, "GenomeCompatibilityMethodLinear")
+	_ = p.Const(PkgT, "GenomeCompatibilityMethodFast")
+	ll, ff := CallsTo(comp, lin), CallsTo(comp, fast)
+	if len(ll) != 1 || len(ff) != 1 {
+		r.Bad("compatibility.calls", p.Pos(comp.Pos()), fmt.Sprintf("compatibility calls compatLinear %d times and compatFast %d times, expected one each", len(ll), len(ff)))
+		return
+	}
+	side := func(c ssa.CallInstruction) (isLinear, ok bool) {
+		for _, g := range Guards(c.Block()) {
+			t := tm.Of(g.Cond)
+			if t.Op == "bin" && (t.Name == "==" || t.Name == "!=") && strings.Contains(t.String(), ".GenCompatMethod") && strings.Contains(t.String(), cl.Val().ExactString()) {
+				return (t.Name == "==") == g.True, true
+			}
+		}
+		return false, false
+	}
+	l, ok1 := side(ll[0])
+	f, ok2 := side(ff[0])
+	r.Check(ok1 && l, "compatibility.linear", p.Pos(ll[0].Pos()), "compatLinear is reached exactly under GenCompatMethod == linear", "compatLinear is not selected by GenCompatMethod == "+cl.Val().ExactString())
+	r.Check(ok2 && !f, "compatibility.fast", p.Pos(ff[0].Pos()), "compatFast is reached otherwise", "compatFast is not the alternative of the linear method")
+	for _, c := range []ssa.CallInstruction{ll[0], ff[0]} {
+		a := callArgTerms(tm, c.Common())
+		okA := a[0].Op == "recv" && isParamIdx(a[1], 1) && isParamIdx(a[2], 2)
+		retOK := false
+		for _, b := range comp.Blocks {
+			if ret, ok := b.Instrs[len(b.Instrs)-1].(*ssa.Return); ok && ret.Results[0] == c.Value() {
+				retOK = true
+			}
+		}
+		r.Check(okA && retOK, "compatibility.passes:"+c.Common().StaticCallee().Name(), p.Pos(c.Pos()), "same genomes and options passed on, result returned", "the walk is not called with (g, og, opts) or its result is not what compatibility returns")
+	}
+	// no other result: every return yields the result of a walk; a constant 0 is acceptable only
+	// for the very same genome object (pointer identity) - genome ids are not unique (every species
+	// numbers its babies 0,1,2,..), so equal ids say nothing about the genes
+	for _, b := range comp.Blocks {
+		ret, ok := b.Instrs[len(b.Instrs)-1].(*ssa.Return)
+		if !ok {
+			continue
+		}
+		w := phiWeb(ret.Results[0])
+		vals := append([]ssa.Value{}, w.Feeders...)
+		for _, c := range w.Consts {
+			vals = append(vals, c)
+		}
+		for _, v := range vals {
+			if v == ll[0].Value() || v == ff[0].Value() {
+				continue
+			}
+			same := false
+			if c, isC := v.(*ssa.Const); isC && tm.Of(c).String() == "0" {
+				for _, g := range Guards(b) {
+					gt := tm.Of(g.Cond)
+					if gt.Op == "bin" && gt.Name == "==" && g.True && ((gt.Args[0].Op == "recv" && isParamIdx(gt.Args[1], 1)) || (gt.Args[1].Op == "recv" && isParamIdx(gt.Args[0], 1))) {
+						same = true
+					}
+				}
+			}
+			r.Check(same, "compatibility.other-result", p.Pos(ret.Pos()), "a shortcut result 0 is returned only for the same genome object", "compatibility returns "+tm.Of(v).String()+" without walking the genes under a condition other than `g == og`: the distance is then not the formula value (genome ids are not unique across species, equal ids do not mean equal genes)")
+		}
+	}
 }
